@@ -203,6 +203,7 @@ class Capacity(object):
         m["alone"] = acc["alone"]          # per guard: (coefficient of p, constant) of `size` for an empty datagram
         m["excess"] = acc["excess"]        # per guard, per case: linear form  actual encoded payload - accounted size
         m["steps"] = acc["steps"]
+        m["uniform"] = acc["uniform"]
         self._cache[mtu] = m
         return m
 
@@ -371,16 +372,25 @@ class Accounting(object):
                     st[case][v] = (f.get(1, 0), f.get("p", 0))
             steps.append(st)
             sizes.append(sz)
-        # both loops feed one list: their step functions must agree, and v must not depend on the case
-        if any(steps[i] != steps[0] for i in range(1, len(steps))):
-            raise Undecided("accounting model: the two packing loops update the accounting variables differently")
-        closed = {}     # case -> var -> linear form over n, S
+        # both loops feed one list.  When their step functions agree the closed form is exact.  When they differ (or the payload
+        # coefficient depends on the case) the accounting variable is only bounded from below: every admission adds at least
+        # min(u) + min(v)*p.  The lower bound is what matters for "never under-counts" (`size` must grow with the variable).
+        uniform = all(steps[i] == steps[0] for i in range(1, len(steps))) and \
+            all(steps[0]["n=0"][v][1] == steps[0]["n=1"][v][1] == steps[0]["n>=2"][v][1] for v in self.vars)
+        if not uniform:
+            for sz in sizes:
+                for case in self.CASES:
+                    if any(c < 0 for k, c in sz[case].items() if isinstance(k, str) and k.startswith("A:")):
+                        raise Undecided("accounting model: `size` decreases with an accounting variable and the loops differ")
+            low = {}
+            for case in self.CASES:
+                low[case] = {v: (min(st[case][v][0] for st in steps), min(st[c2][v][1] for st in steps for c2 in self.CASES)) for v in self.vars}
+            steps = [low for _ in steps]
+        closed = {}     # case -> var -> linear form over n, S   (exact if uniform, else a lower bound)
         for v in self.vars:
             u0, v0 = steps[0]["n=0"][v]
             u1, v1 = steps[0]["n=1"][v]
             u2, v2 = steps[0]["n>=2"][v]
-            if not (v0 == v1 == v2):
-                raise Undecided("accounting model: payload coefficient of %s differs between cases" % v)
             closed.setdefault("n=0", {})[v] = {1: init[v]}
             closed.setdefault("n=1", {})[v] = {1: init[v] + u0, "S": v0}
             closed.setdefault("n>=2", {})[v] = {1: init[v] + u0 + u1 - 2 * u2, "n": u2, "S": v0}
@@ -406,7 +416,7 @@ class Accounting(object):
                 ex[case] = self._add(actual, size, -1)
             excess.append(ex)
         self._memo_key = key
-        self._memo = {"alone": alone, "excess": excess, "steps": steps[0], "closed": closed, "sizes": sizes, "init": init}
+        self._memo = {"alone": alone, "excess": excess, "steps": steps[0], "closed": closed, "sizes": sizes, "init": init, "uniform": uniform}
         return self._memo
 
     def count_bound(self, m):
